@@ -196,8 +196,8 @@ theorem semNormalE_of_range (e : Expr) (h : semNormalRangeE e = true) : semNorma
   | set es => simp only [semNormalRangeE] at h; simp only [semNormalE]; exact semNormalEs_of_range es h
   | record kes =>
     simp only [semNormalRangeE, Bool.and_eq_true] at h
-    simp only [semNormalE, Bool.and_eq_true]
-    exact ⟨semNormalKEs_of_range kes h.1, h.2⟩
+    simp only [semNormalE]
+    exact semNormalKEs_of_range kes h.1
   | call fn args => simp only [semNormalRangeE] at h; simp only [semNormalE]; exact semNormalEs_of_range args h
 theorem semNormalEs_of_range (es : List Expr) (h : semNormalRangeEs es = true) : semNormalEs es = true := by
   cases es with
